@@ -324,6 +324,8 @@ def run_property(pid, tier):
             "known_findings_reproduced": known_lines,
             "bounded_standins": (list(getattr(cfg.extra, "standins", []) or []) if cfg.extra is not None else []) + thorough_standins,
             "closure_rounds": rounds,
+            "class_invariants_in_cone": sorted(INV_CONE["classes"]),
+            "verifier_notes": sorted({n for q in fns for n in results[q]["notes"] if not n.startswith(("dropped", "global ", "ground:", "assumes-inv", "A-"))})[:40],
             "slowest_obligations": [{"obligation": o["name"], "seconds": o["time"]} for _, o in sorted(rel, key=lambda qo: -qo[1]["time"])[:5]],
             "slowest_functions": [{"function": q, "seconds": round(r.get("time", 0), 1), "solver_calls": r.get("nsolve")} for q, r in
                                   sorted(((q, r) for q, r in results.items() if "fault" not in r), key=lambda qr: -qr[1].get("time", 0))[:5]],
@@ -334,7 +336,8 @@ def run_property(pid, tier):
             "engine_crosscheck": {"kind": "bounded test of the verifier: executor on concrete inputs vs CPython on the real modules", "programs": xc["programs"],
                                   "values_compared": xc["values_compared"], "mismatches": len(xc["mismatches"]), "note": xc_note},
         },
-        "assumptions": COMMON_ASSUMPTIONS + cfg.assumptions + t2_used + sorted({n for q in fns for n in results[q]["notes"] if not n.startswith("dropped")}),
+        "assumptions": COMMON_ASSUMPTIONS + cfg.assumptions + t2_used + sorted({n for q in fns for n in results[q]["notes"]
+                                                                               if n.startswith(("global ", "ground:", "A-"))}),
         "wall_s": round(time.time() - t0, 2),
         "violations": len(real_violations),
     }
